@@ -109,7 +109,7 @@ def case_build(acc, auth, segs):
 def case_with_path(acc, auth, segs):
     p = "/".join(segs)
     text = canon_dec(p)
-    if auth:
+    if auth is True:
         def exp():
             if not text:
                 return "/"
@@ -129,6 +129,10 @@ def case_with_path(acc, auth, segs):
         return run(acc, "with_path", (auth, segs), call, exp, True)
     if ("/" + p).startswith("//") or p.startswith("//"):
         return None
+    if auth == "file":
+        # a scheme (one that supports relative resolution) but NO authority: dot segments stay, exactly as for a relative reference
+        return run(acc, "with_path", (auth, segs), lambda: impl.URL("file:///z?q#f").with_path(p),
+                   lambda: (text if text.startswith("/") else "/" + text) if text else "", False)
     return run(acc, "with_path", (auth, segs), lambda: impl.URL("/z?q#f").with_path(p),
                lambda: (text if text.startswith("/") else "/" + text) if text else "", False)
 
@@ -202,8 +206,16 @@ def case_join(acc, base, segs):
     p = "/".join(segs)
     if p.startswith("//") or (segs and ":" in segs[0]):
         return None
-    b = {"auth": "http://h.com/r/s", "auth_slash": "http://h.com/r/s/", "auth_empty": "http://h.com"}[base]
+    b = {"auth": "http://h.com/r/s", "auth_slash": "http://h.com/r/s/", "auth_empty": "http://h.com",
+         "auth_encoded_dots": "http://h.com/a/../r/./s"}[base]
     bt = R.split(b)[:5]
+    if base == "auth_encoded_dots":
+        if not p:
+            return None   # an empty reference path takes the base path as it is (RFC 5.2.2), dots and all: the caller vouched for it
+        # a pre-encoded base that still carries dot segments: the merge result must be normalised all the same
+        ref = canon_req(p)
+        t = R.resolve(bt, (None, None, ref, None, None))
+        return run(acc, "join", (base, segs), lambda: impl.URL(b, encoded=True).join(impl.URL(p)), lambda: t[2] or "/", True)
     ref = canon_req(p)
     t = R.resolve(bt, (None, None, ref, None, None))
     return run(acc, "join", (base, segs), lambda: impl.URL(b).join(impl.URL(p)), lambda: t[2] or "/", True)
@@ -214,7 +226,7 @@ CASES = {"ctor": case_ctor, "build": case_build, "with_path": case_with_path, "t
 
 ENTRY = ([("ctor", f) for f in ("auth", "netpath", "rooted", "rootless", "opaque", "opaque_rooted")]
          + [(n, a) for n in ("build", "with_path", "truediv", "joinpath", "joinpath_enc") for a in (True, False)]
-         + [("join", b) for b in ("auth", "auth_slash", "auth_empty")]
+         + [("join", b) for b in ("auth", "auth_slash", "auth_empty", "auth_encoded_dots")] + [("with_path", "file")]
          + [("with_suffix", x) for x in ("", ".x", ".")] + [("with_name", d) for d in range(len(NAME_DECOR))])
 
 
